@@ -13,6 +13,7 @@ import (
 	"time"
 
 	"pgregory.net/rapid"
+	"verif/harness/cfz"
 	"verif/harness/corpus"
 	"verif/harness/eng"
 	"verif/harness/gen"
@@ -180,6 +181,37 @@ func TestMutants(t *testing.T) {
 		ctx.Rec.Add("mutants_total", 1)
 		ctx.Rec.Case(accepted && src != p.Src, src, "source:mutant", "mutant:"+cls)
 		if accepted && ctx.Rec.WantSample() && len(src) < 500 && src != p.Src {
+			ctx.Rec.Sample(map[string]any{"origin": c.Origin, "ops": ops, "src": src, "outcome": res.Out.Class})
+		}
+		ctx.Report(t, fl)
+	})
+}
+
+// TestBorderline: programs at the border of the type checker. A generated well-typed
+// program is followed by typed contexts filled with expressions of the same, a related
+// (any-based) or an unrelated type, and by stores through selector chains that may end
+// inside a string. Most are rejected; whatever is accepted must run to a documented outcome.
+func TestBorderline(t *testing.T) {
+	if h.ReplayPath() != "" {
+		t.Skip("replay run")
+	}
+	ctx := h.Setup(t, "C02")
+	rapid.Check(t, func(t *rapid.T) {
+		src, ops := cfz.Program(t, true)
+		current(src)
+		c := Case{Src: src, Origin: "borderline"}
+		fl, res := checkCase(c)
+		accepted := res != nil && res.Out.Class != "parse"
+		cls := "rejected"
+		if accepted {
+			cls = "accepted:" + strings.SplitN(res.Out.Class, ":", 2)[0]
+		}
+		labels := []string{"source:borderline", "borderline:" + cls}
+		for _, o := range ops {
+			labels = append(labels, o+":"+strings.SplitN(cls, ":", 2)[0])
+		}
+		ctx.Rec.Case(accepted, src, labels...)
+		if accepted && ctx.Rec.WantSample() && len(src) < 500 {
 			ctx.Rec.Sample(map[string]any{"origin": c.Origin, "ops": ops, "src": src, "outcome": res.Out.Class})
 		}
 		ctx.Report(t, fl)
